@@ -201,6 +201,14 @@ class FuzzWorker(Worker):
         c = [self.exe, "-runs=%d" % max(1, self.cases // self.nshards), "-seed=%d" % (self.seed * 1000 + self.shard + 1),
              "-max_len=%d" % self.job.get("max_len", 600), "-timeout=%d" % self.job.get("input_timeout", 60), "-rss_limit_mb=4096",
              "-malloc_limit_mb=2048", "-print_final_stats=1", "-artifact_prefix=" + self.art, "-verbosity=1", "-len_control=20"]
+        # corpus: a scratch directory (libFuzzer writes new units into the first one) plus the committed, merge-minimised
+        # seed corpus of earlier campaigns (read only), so that a bounded run starts from deep coverage
+        scratch = os.path.join(self.tmp, "%s_corpus" % self.tag)
+        os.makedirs(scratch, exist_ok=True)
+        c.append(scratch)
+        seedc = os.path.join(VERIF, "fuzz_corpus", self.job["mon"])
+        if os.path.isdir(seedc) and os.listdir(seedc):
+            c.append(seedc)
         return c + (extra or [])
 
     def run_all(self, timeout, max_restarts=0):
